@@ -91,6 +91,7 @@ structure Mono (w w' : World) : Prop where
   stopped : w'.stopped = w.stopped
   accepted : w'.accepted = w.accepted
   phase : w'.phase = w.phase
+  ctx : w'.ctxCancelled = w.ctxCancelled
   len : w'.conns.length = w.conns.length
   flen : w'.faults.length ≤ w.faults.length
   fsub : ∀ f, f ∈ w'.faults → f ∈ w.faults
@@ -110,6 +111,7 @@ theorem Mono.trans {a b c : World} (h1 : Mono a b) (h2 : Mono b c) : Mono a c wh
   stopped := h2.stopped.trans h1.stopped
   accepted := h2.accepted.trans h1.accepted
   phase := h2.phase.trans h1.phase
+  ctx := h2.ctx.trans h1.ctx
   len := h2.len.trans h1.len
   flen := Nat.le_trans h2.flen h1.flen
   fsub := fun f hf => h1.fsub f (h2.fsub f hf)
@@ -199,33 +201,33 @@ theorem Quiet.trans {a b c : World} (h1 : Quiet a b) (h2 : Quiet b c) : Quiet a 
     h2.stuck.trans h1.stuck⟩
 
 theorem quiet_logPkt (w : World) (k : Nat) (p : Pkt) (x : Wire) : Quiet w (logPkt w k p x) := by
-  refine ⟨⟨?_, ?_, ?_, ?_, ?_, ?_, ?_, ?_, ?_, ?_, ?_, ?_, ?alive, ?_⟩, ?_, ?_, ?_, ?_⟩
+  refine ⟨⟨?_, ?_, ?_, ?_, ?_, ?_, ?_, ?_, ?_, ?_, ?_, ?_, ?_, ?alive, ?_⟩, ?_, ?_, ?_, ?_⟩
   case alive => intro j; rw [alive_logPkt]; exact id
   all_goals simp [logPkt, setConn]
 
 theorem quiet_kill (w : World) (k : Nat) : Quiet w (kill w k) := by
-  refine ⟨⟨?_, ?_, ?_, ?_, ?_, ?_, ?_, ?_, ?_, ?_, ?_, ?_, ?alive, ?_⟩, ?_, ?_, ?_, ?_⟩
+  refine ⟨⟨?_, ?_, ?_, ?_, ?_, ?_, ?_, ?_, ?_, ?_, ?_, ?_, ?_, ?alive, ?_⟩, ?_, ?_, ?_, ?_⟩
   case alive => intro j; rw [alive_kill]; split <;> simp
   all_goals simp [kill, setConn]
 
 theorem quiet_setCtr (w : World) (k x : Nat) :
     Quiet w (setConn w k { getConn w k with ctr := x }) := by
-  refine ⟨⟨?_, ?_, ?_, ?_, ?_, ?_, ?_, ?_, ?_, ?_, ?_, ?_, ?alive, ?_⟩, ?_, ?_, ?_, ?_⟩
+  refine ⟨⟨?_, ?_, ?_, ?_, ?_, ?_, ?_, ?_, ?_, ?_, ?_, ?_, ?_, ?alive, ?_⟩, ?_, ?_, ?_, ?_⟩
   case alive => intro j; rw [alive_setCtr]; exact id
   all_goals simp [setConn]
 
 theorem quiet_process (w : World) (p : Pkt) : Quiet w { w with broker := w.broker.process p } := by
-  refine ⟨⟨?_, ?_, ?_, ?_, ?_, ?_, ?_, ?_, ?_, ?_, ?_, ?_, ?alive, ?_⟩, ?_, ?_, ?_, ?_⟩
+  refine ⟨⟨?_, ?_, ?_, ?_, ?_, ?_, ?_, ?_, ?_, ?_, ?_, ?_, ?_, ?alive, ?_⟩, ?_, ?_, ?_, ?_⟩
   case alive => intro j; exact id
   all_goals simp
 
 theorem quiet_pid (w : World) (x : List (Nat × Nat)) : Quiet w { w with pid := x } := by
-  refine ⟨⟨?_, ?_, ?_, ?_, ?_, ?_, ?_, ?_, ?_, ?_, ?_, ?_, ?alive, ?_⟩, ?_, ?_, ?_, ?_⟩
+  refine ⟨⟨?_, ?_, ?_, ?_, ?_, ?_, ?_, ?_, ?_, ?_, ?_, ?_, ?_, ?alive, ?_⟩, ?_, ?_, ?_, ?_⟩
   case alive => intro j; exact id
   all_goals simp
 
 theorem mono_stuck (w : World) : Mono w { w with stuck := true } := by
-  refine ⟨?_, ?_, ?_, ?_, ?_, ?_, ?_, ?_, ?_, ?_, ?_, ?_, ?alive, ?_⟩
+  refine ⟨?_, ?_, ?_, ?_, ?_, ?_, ?_, ?_, ?_, ?_, ?_, ?_, ?_, ?alive, ?_⟩
   case alive => intro j; exact id
   all_goals simp
 
@@ -234,7 +236,7 @@ theorem quiet_nextFault (w : World) : Quiet w (nextFault w).2 := by
   split
   · exact Quiet.refl w
   · next f rest h =>
-    refine ⟨⟨?_, ?_, ?_, ?_, ?_, ?_, ?_, ?_, ?_, ?_, ?_, ?_, ?alive, ?_⟩, ?_, ?_, ?_, ?_⟩
+    refine ⟨⟨?_, ?_, ?_, ?_, ?_, ?_, ?_, ?_, ?_, ?_, ?_, ?_, ?_, ?alive, ?_⟩, ?_, ?_, ?_, ?_⟩
     case alive => intro j; exact id
     all_goals simp [h]
     intro f hf; exact Or.inr hf
@@ -313,7 +315,7 @@ theorem send_spec (w : World) (k : Nat) (p : Pkt) (waits : Bool) :
 
 
 theorem mono_broker (w : World) (b : Broker) : Mono w { w with broker := b } := by
-  refine ⟨?_, ?_, ?_, ?_, ?_, ?_, ?_, ?_, ?_, ?_, ?_, ?_, ?alive, ?_⟩
+  refine ⟨?_, ?_, ?_, ?_, ?_, ?_, ?_, ?_, ?_, ?_, ?_, ?_, ?_, ?alive, ?_⟩
   case alive => intro j; exact id
   all_goals simp
 
@@ -551,7 +553,7 @@ theorem pubAttempt_spec (w : World) (k m qos : Nat) (dup : Bool) :
 
 /-- discharge `Quiet w w'` when `w'` is `w` with some bookkeeping fields replaced -/
 macro "quiet_triv" : tactic =>
-  `(tactic| (refine ⟨⟨?_, ?_, ?_, ?_, ?_, ?_, ?_, ?_, ?_, ?_, ?_, ?_, ?alive, ?_⟩, ?_, ?_, ?_, ?_⟩
+  `(tactic| (refine ⟨⟨?_, ?_, ?_, ?_, ?_, ?_, ?_, ?_, ?_, ?_, ?_, ?_, ?_, ?alive, ?_⟩, ?_, ?_, ?_, ?_⟩
              case alive => intro j; exact id
              all_goals simp))
 
@@ -577,7 +579,7 @@ theorem step_requeue {k : Nat} {w w1 : World} (e : ErrKind) (hs : List Entry) (h
     (al : (getConn w k).alive = true → w1.faults.length < w.faults.length) :
     Step k w (requeue w1 e hs) where
   mono := h.mono.trans (by
-    refine ⟨?_, ?_, ?_, ?_, ?_, ?_, ?_, ?_, ?_, ?_, ?_, ?_, ?alive, ?_⟩
+    refine ⟨?_, ?_, ?_, ?_, ?_, ?_, ?_, ?_, ?_, ?_, ?_, ?_, ?_, ?alive, ?_⟩
     case alive => intro j; exact id
     all_goals simp [requeue])
   catMono := fun _ => rfl
@@ -599,7 +601,7 @@ def enqueue (w : World) (e : Entry) : World := { w with retryQ := w.retryQ ++ [e
 theorem task_enqueue (k : Nat) (w : World) (e : Entry) (hne : w.retryQ.isEmpty = false) :
     TaskSpec k [entryReq e] w (enqueue w e) := by
   refine ⟨⟨?_, id, ?_, fun _ => rfl, Or.inl⟩, ?_⟩
-  · refine ⟨?_, ?_, ?_, ?_, ?_, ?_, ?_, ?_, ?_, ?_, ?_, ?_, ?alive, ?_⟩
+  · refine ⟨?_, ?_, ?_, ?_, ?_, ?_, ?_, ?_, ?_, ?_, ?_, ?_, ?_, ?alive, ?_⟩
     case alive => intro j; exact id
     all_goals simp [enqueue]
   · intro c
@@ -680,7 +682,7 @@ theorem keeps_of_stuck {reqs : List Req} {w w' : World} (h : w'.stuck = true) : 
 theorem task_keepRest (k : Nat) (w : World) (rest : List Entry) (hc : w.closeAfterTask = true) :
     TaskSpec k (rest.map entryReq) w { w with retryQ := w.retryQ ++ rest } := by
   refine ⟨⟨?_, id, fun _ => Or.inr hc, fun _ => rfl, fun g => ?_⟩, ?_⟩
-  · refine ⟨?_, ?_, ?_, ?_, ?_, ?_, ?_, ?_, ?_, ?_, ?_, ?_, ?alive, ?_⟩
+  · refine ⟨?_, ?_, ?_, ?_, ?_, ?_, ?_, ?_, ?_, ?_, ?_, ?_, ?_, ?alive, ?_⟩
     case alive => intro j; exact id
     all_goals simp
   · rw [g.2] at hc; exact absurd hc (by decide)
@@ -745,7 +747,7 @@ def taskReqs : Task → List Req
 
 theorem step_clearRetryQ (k : Nat) (w : World) : Step k w { w with retryQ := [] } := by
   refine ⟨?_, id, fun _ => Or.inl rfl, fun _ => rfl, Or.inl⟩
-  refine ⟨?_, ?_, ?_, ?_, ?_, ?_, ?_, ?_, ?_, ?_, ?_, ?_, ?alive, ?_⟩
+  refine ⟨?_, ?_, ?_, ?_, ?_, ?_, ?_, ?_, ?_, ?_, ?_, ?_, ?_, ?alive, ?_⟩
   case alive => intro j; exact id
   all_goals simp
 
@@ -952,7 +954,7 @@ theorem alive_setConnected (w : World) (k : Nat) (j : Nat) :
 
 theorem quiet_setConnected (w : World) (k : Nat) :
     Quiet w (setConn w k { getConn w k with connected := true }) := by
-  refine ⟨⟨?_, ?_, ?_, ?_, ?_, ?_, ?_, ?_, ?_, ?_, ?_, ?_, ?alive, ?_⟩, ?_, ?_, ?_, ?_⟩
+  refine ⟨⟨?_, ?_, ?_, ?_, ?_, ?_, ?_, ?_, ?_, ?_, ?_, ?_, ?_, ?alive, ?_⟩, ?_, ?_, ?_, ?_⟩
   case alive => intro j; rw [alive_setConnected]; exact id
   all_goals simp [setConn]
 
@@ -987,7 +989,7 @@ theorem quiet'_foldl_deliverInbound (inb : List (Nat × Nat)) (k : Nat) (w : Wor
 
 theorem quiet_clearSession (w : World) (sp : Bool) :
     Quiet w { w with broker := if sp then w.broker else w.broker.clearSession } := by
-  refine ⟨⟨?_, ?_, ?_, ?_, ?_, ?_, ?_, ?_, ?_, ?_, ?_, ?_, ?alive, ?_⟩, ?_, ?_, ?_, ?_⟩
+  refine ⟨⟨?_, ?_, ?_, ?_, ?_, ?_, ?_, ?_, ?_, ?_, ?_, ?_, ?_, ?alive, ?_⟩, ?_, ?_, ?_, ?_⟩
   case alive => intro j; exact id
   all_goals simp
   cases sp <;> simp [Broker.clearSession]
@@ -1015,6 +1017,7 @@ structure ConnackEnd (k : Nat) (w w' : World) : Prop where
   phase : w'.phase = if w.stopped then .exited else .up k
   broker : w'.broker = w.broker
   faults : w'.faults = w.faults
+  ctx : w'.ctxCancelled = w.ctxCancelled
   taskQ : w'.taskQ = w.taskQ ∨ w'.taskQ = w.taskQ ++ [.retry] ∨
     w'.taskQ = w.taskQ ++ [.resubscribe, .retry]
   /-- Disconnect has not been called: the connection comes up and `Retry` is pushed -/
@@ -1032,12 +1035,12 @@ theorem core_connackEnd (w : World) (k : Nat) (sp : Bool) : core (connackEnd w k
   rcases h.taskQ with h | h | h <;> simp [h, List.filterMap_append, taskReq]
 
 
-/-- `connectFailed` while Disconnect has not been called: the loop backs off and dials again -/
+/-- `connectFailed` while Disconnect has not been called: the loop backs off (and dials again once the
+    back-off timer fires, `.waitElapsed`) -/
 theorem connectFailed_live (w : World) (k : Nat) (h : w.stopped = false) :
     connectFailed w k =
       { kill { w with connReady := true } k with
-        phase := .dialGate, waits := w.waits ++ [w.waitExp], waitExp := w.waitExp + 1,
-        dials := w.dials + 1 } := by
+        phase := .backoff, waits := w.waits ++ [w.waitExp], waitExp := w.waitExp + 1 } := by
   unfold connectFailed
   simp only
   rw [if_neg (by show ¬ w.stopped = true; simp [h])]
@@ -1076,7 +1079,23 @@ theorem keepsAll_pushOther (w : World) (t : Task) (ht : taskReq t = none) : Keep
 
 theorem keepsAll_step (w : World) (e : Ev) : KeepsAll w (step w e) := by
   cases e with
-  | start => simp only [step]; split <;> first | exact KeepsAll.refl w | exact KeepsAll.ofCore rfl
+  | start =>
+    simp only [step]
+    split
+    · exact KeepsAll.refl w
+    · split <;> exact KeepsAll.ofCore rfl
+  | waitElapsed => simp only [step]; split <;> first | exact KeepsAll.refl w | exact KeepsAll.ofCore rfl
+  | cancelCtx =>
+    simp only [step]
+    split
+    · exact KeepsAll.refl w
+    · split
+      · exact KeepsAll.ofCore rfl
+      · exact KeepsAll.ofCore rfl
+      · exact KeepsAll.ofCore rfl
+      · exact KeepsAll.trans (KeepsAll.ofCore rfl) (keepsAll_progress _)
+      · exact KeepsAll.ofCore rfl
+      · exact KeepsAll.ofCore rfl
   | app r =>
     simp only [step]
     split
@@ -1163,6 +1182,7 @@ structure Run (k : Nat) (w : World) : Prop where
   sil : Sil w
   nodisc : Task.disconnect ∉ w.taskQ
   stopped : w.stopped = false
+  ctx : w.ctxCancelled = false
 
 /-- what a run of the task goroutine achieves -/
 structure Ran (k : Nat) (w w' : World) : Prop where
@@ -1180,13 +1200,13 @@ theorem afterTask_spec (w : World) (k : Nat) (hk : k < w.conns.length) :
     (afterTask w k).connReady = w.connReady ∧ (afterTask w k).stuck = w.stuck ∧
     (afterTask w k).cfg = w.cfg ∧ (afterTask w k).faults = w.faults ∧
     (afterTask w k).taskQ = w.taskQ ∧ (afterTask w k).stopped = w.stopped ∧
-    (afterTask w k).phase = w.phase ∧
+    (afterTask w k).phase = w.phase ∧ (afterTask w k).ctxCancelled = w.ctxCancelled ∧
     (w.closeAfterTask = false → afterTask w k = w) ∧
     ((getConn (afterTask w k) k).alive = true → w.closeAfterTask = false) := by
   unfold afterTask
   split
   · next h =>
-    refine ⟨rfl, rfl, ?_, rfl, rfl, rfl, rfl, rfl, rfl, rfl, rfl, ?_, ?_⟩
+    refine ⟨rfl, rfl, ?_, rfl, rfl, rfl, rfl, rfl, rfl, rfl, rfl, rfl, ?_, ?_⟩
     · simp [kill, setConn]
     · intro h'; rw [h] at h'; exact absurd h' (by decide)
     · intro ha
@@ -1195,7 +1215,7 @@ theorem afterTask_spec (w : World) (k : Nat) (hk : k < w.conns.length) :
       simp [hk] at this
   · next h =>
     have h' : w.closeAfterTask = false := by simpa using h
-    exact ⟨h', rfl, rfl, rfl, rfl, rfl, rfl, rfl, rfl, rfl, rfl, fun _ => rfl, fun _ => h'⟩
+    exact ⟨h', rfl, rfl, rfl, rfl, rfl, rfl, rfl, rfl, rfl, rfl, rfl, fun _ => rfl, fun _ => h'⟩
 
 theorem runTasks_live (k : Nat) (fuel : Nat) (w : World) (hr : Run k w) (hf : w.taskQ.length < fuel) :
     Ran k w (runTasks fuel w) := by
@@ -1208,7 +1228,7 @@ theorem runTasks_live (k : Nat) (fuel : Nat) (w : World) (hr : Run k w) (hf : w.
     rw [if_neg c1, if_neg c2]
     split
     · next hq =>
-      refine ⟨⟨hr.cli, hr.lt, hr.gor, hr.ready, hr.stuck, hr.cat, hr.sil, hr.nodisc, hr.stopped⟩,
+      refine ⟨⟨hr.cli, hr.lt, hr.gor, hr.ready, hr.stuck, hr.cat, hr.sil, hr.nodisc, hr.stopped, hr.ctx⟩,
         hq, rfl, Nat.le_refl _, id, fun h h' => ?_, fun _ h => ?_⟩
       · have : (getConn w k).alive = false := h'
         rw [h] at this; exact absurd this (by decide)
@@ -1226,10 +1246,11 @@ theorem runTasks_live (k : Nat) (fuel : Nat) (w : World) (hr : Run k w) (hf : w.
       rw [if_neg (by simp [stuck1])]
       have m := st.mono
       have hk1 : k' < w1.conns.length := by rw [m.len]; exact hr.lt
-      obtain ⟨a1, a2, a3, a4, a5, a6, a7, a8, a9, a10, a11, a12, a13⟩ := afterTask_spec w1 k' hk1
+      obtain ⟨a1, a2, a3, a4, a5, a6, a7, a8, a9, a10, a11, actx, a12, a13⟩ := afterTask_spec w1 k' hk1
       have run2 : Run k' (afterTask w1 k') := by
         refine ⟨a2.trans (m.cli.trans hr.cli), by rw [a3]; exact hk1, a4.trans (m.goroutine.trans hr.gor),
-          a5.trans (m.connReady.trans hr.ready), a6.trans stuck1, a1, ?_, ?_, a10.trans (m.stopped.trans hr.stopped)⟩
+          a5.trans (m.connReady.trans hr.ready), a6.trans stuck1, a1, ?_, ?_, a10.trans (m.stopped.trans hr.stopped),
+          actx.trans (m.ctx.trans hr.ctx)⟩
         · have := m.sil sil0
           unfold Sil at *; rw [a7, a8]; exact this
         · rw [a9, m.taskQ]
@@ -1291,7 +1312,14 @@ theorem runTasks_live (k : Nat) (fuel : Nat) (w : World) (hr : Run k w) (hf : w.
 
 /-! ### liveness: the invariant of quiescent states -/
 
-/-- the loop waits to dial after connection `k` (the client's current one) has died -/
+/-- the loop is between two connections: waiting for the back-off timer (`.backoff`) or inside
+    DialContext (`.dialGate`) -/
+def Phase.dialling : Phase → Bool
+  | .backoff => true
+  | .dialGate => true
+  | _ => false
+
+/-- the loop backs off / dials after connection `k` (the client's current one) has died -/
 def DeadOn (w : World) (k : Nat) : Prop :=
   w.cli = some k ∧ k < w.conns.length ∧ (getConn w k).alive = false ∧ w.goroutine = true ∧
     w.connReady = true
@@ -1302,8 +1330,10 @@ structure Inv (w : World) : Prop where
   cat : w.closeAfterTask = false
   sil : Sil w
   nodisc : Task.disconnect ∉ w.taskQ
+  /-- the context given to Connect has not been cancelled while Connect was still waiting -/
+  ctx : w.ctxCancelled = false
   idle : w.phase = .idle → w.goroutine = false ∧ w.gConnected = false
-  dial : w.phase = .dialGate → (w.goroutine = false ∧ w.gConnected = false) ∨ ∃ k, DeadOn w k
+  dial : w.phase.dialling = true → (w.goroutine = false ∧ w.gConnected = false) ∨ ∃ k, DeadOn w k
   gate : ∀ k, w.phase = .connackGate k → w.cli = some k ∧ k < w.conns.length ∧
     (getConn w k).alive = true ∧ w.goroutine = true ∧ w.gConnected = false ∧ w.connReady = false
   up : ∀ k, w.phase = .up k → w.cli = some k ∧ k < w.conns.length ∧
@@ -1313,7 +1343,7 @@ structure Inv (w : World) : Prop where
 theorem Inv.ofQuiet' {w w' : World} (q : Quiet' w w') (h : Inv w) : Inv w' := by
   have m := q.quiet.mono
   refine ⟨m.stopped.trans h.stopped, q.quiet.stuck.trans h.stuck, q.quiet.cat.trans h.cat, m.sil h.sil,
-    by rw [m.taskQ]; exact h.nodisc, ?_, ?_, ?_, ?_, by rw [m.phase]; exact h.nex⟩
+    by rw [m.taskQ]; exact h.nodisc, m.ctx.trans h.ctx, ?_, ?_, ?_, ?_, by rw [m.phase]; exact h.nex⟩
   · intro hp; rw [m.phase] at hp; rw [m.goroutine, m.gConnected]; exact h.idle hp
   · intro hp; rw [m.phase] at hp
     cases h.dial hp with
@@ -1350,37 +1380,43 @@ theorem progress_blocked (w : World)
   · next k hk => exact absurd hk (hp k)
   · rfl
 
-/-- progress while the loop waits to dial: everything runs into the retry queue -/
-theorem progress_dial (k : Nat) (w : World) (hr : Run k w) (hp : w.phase = .dialGate)
+/-- progress while the loop backs off or dials: everything runs into the retry queue -/
+theorem progress_dial (k : Nat) (w : World) (hr : Run k w) (hp : w.phase.dialling = true)
     (hd : (getConn w k).alive = false) :
-    Inv (progress w) ∧ (progress w).phase = .dialGate ∧ (progress w).faults.length ≤ w.faults.length := by
+    Inv (progress w) ∧ (progress w).phase = w.phase ∧ (progress w).faults.length ≤ w.faults.length := by
   unfold progress
   have r := runTasks_live k _ w hr (Nat.lt_succ_self _)
   generalize runTasks (w.taskQ.length + 1) w = w' at r
-  have hp' : w'.phase = .dialGate := r.phase.trans hp
-  have e : loopReact w' = w' := by unfold loopReact; rw [hp']
+  have hp' : w'.phase = w.phase := r.phase
+  have hd' : w'.phase.dialling = true := by rw [hp']; exact hp
+  have e : loopReact w' = w' := by
+    unfold loopReact
+    split
+    · next k' hk => rw [hk] at hd'; exact absurd hd' (by simp [Phase.dialling])
+    · rfl
   rw [e]
   have dead : (getConn w' k).alive = false := by
     cases h : (getConn w' k).alive with
     | false => rfl
     | true => rw [r.alive h] at hd; exact absurd hd (by decide)
-  refine ⟨⟨r.run.stopped, r.run.stuck, r.run.cat, r.run.sil, r.run.nodisc, ?_, ?_, ?_, ?_, ?_⟩, hp', r.flen⟩
-  · intro h; rw [hp'] at h; exact absurd h (by simp)
+  refine ⟨⟨r.run.stopped, r.run.stuck, r.run.cat, r.run.sil, r.run.nodisc, r.run.ctx, ?_, ?_, ?_, ?_, ?_⟩,
+    hp', r.flen⟩
+  · intro h; rw [h] at hd'; exact absurd hd' (by simp [Phase.dialling])
   · intro _; right; exact ⟨k, r.run.cli, r.run.lt, dead, r.run.gor, r.run.ready⟩
-  · intro k h; rw [hp'] at h; exact absurd h (by simp)
-  · intro k h; rw [hp'] at h; exact absurd h (by simp)
-  · rw [hp']; simp
+  · intro k h; rw [h] at hd'; exact absurd hd' (by simp [Phase.dialling])
+  · intro k h; rw [h] at hd'; exact absurd hd' (by simp [Phase.dialling])
+  · intro h; rw [h] at hd'; exact absurd hd' (by simp [Phase.dialling])
 
 /-- a quiescent state with the connection up: nothing is left to do -/
 def settled (w : World) : Prop :=
   w.taskQ = [] ∧ w.retryQ = [] ∧ w.stuck = false ∧ ∃ k, w.phase = .up k ∧ (getConn w k).alive = true
 
 /-- progress while connection `k` is up: either everything is carried out, or the connection
-    breaks and (if it was alive) a fault has been consumed -/
+    breaks, the loop backs off, and (if the connection was alive) a fault has been consumed -/
 theorem progress_up (k : Nat) (w : World) (hr : Run k w) (hp : w.phase = .up k)
     (hq : w.retryQ = [] ∨ Task.retry ∈ w.taskQ) :
     Inv (progress w) ∧ (progress w).faults.length ≤ w.faults.length ∧
-      (settled (progress w) ∨ ((progress w).phase = .dialGate ∧
+      (settled (progress w) ∨ ((progress w).phase = .backoff ∧
         ((getConn w k).alive = true → (progress w).faults.length < w.faults.length))) := by
   unfold progress
   have r := runTasks_live k _ w hr (Nat.lt_succ_self _)
@@ -1392,10 +1428,10 @@ theorem progress_up (k : Nat) (w : World) (hr : Run k w) (hp : w.phase = .up k)
   split
   · next ha =>
     have rq := r.retryQ ha hq
-    refine ⟨⟨r.run.stopped, r.run.stuck, r.run.cat, r.run.sil, r.run.nodisc, ?_, ?_, ?_, ?_, ?_⟩, r.flen,
-      Or.inl ⟨r.taskQ, rq, r.run.stuck, k, hp', ha⟩⟩
+    refine ⟨⟨r.run.stopped, r.run.stuck, r.run.cat, r.run.sil, r.run.nodisc, r.run.ctx, ?_, ?_, ?_, ?_, ?_⟩,
+      r.flen, Or.inl ⟨r.taskQ, rq, r.run.stuck, k, hp', ha⟩⟩
     · intro h; rw [hp'] at h; exact absurd h (by simp)
-    · intro h; rw [hp'] at h; exact absurd h (by simp)
+    · intro h; rw [hp'] at h; exact absurd h (by simp [Phase.dialling])
     · intro k h; rw [hp'] at h; exact absurd h (by simp)
     · intro k2 h; rw [hp'] at h
       have : k = k2 := by simpa using h
@@ -1405,8 +1441,8 @@ theorem progress_up (k : Nat) (w : World) (hr : Run k w) (hp : w.phase = .up k)
   · next ha =>
     have dead : (getConn w' k).alive = false := by simpa using ha
     rw [if_neg (by simp [r.run.stopped])]
-    refine ⟨⟨r.run.stopped, r.run.stuck, r.run.cat, r.run.sil, r.run.nodisc, ?_, ?_, ?_, ?_, ?_⟩, r.flen,
-      Or.inr ⟨rfl, fun h => r.dead h dead⟩⟩
+    refine ⟨⟨r.run.stopped, r.run.stuck, r.run.cat, r.run.sil, r.run.nodisc, r.run.ctx, ?_, ?_, ?_, ?_, ?_⟩,
+      r.flen, Or.inr ⟨rfl, fun h => r.dead h dead⟩⟩
     · intro h; exact absurd h (by simp)
     · intro _; right; exact ⟨k, r.run.cli, r.run.lt, dead, r.run.gor, r.run.ready⟩
     · intro k h; exact absurd h (by simp)
@@ -1419,26 +1455,28 @@ theorem progress_up (k : Nat) (w : World) (hr : Run k w) (hp : w.phase = .up k)
 theorem inv_start (w : World) (h : Inv w) : Inv (step w .start) := by
   simp only [step]
   split
+  · exact h
   · next hp =>
+    have hp : w.phase = .idle := by simpa using hp
     have := h.idle hp
-    refine ⟨h.stopped, h.stuck, h.cat, h.sil, h.nodisc, ?_, fun _ => Or.inl this, ?_, ?_, ?_⟩
+    rw [if_neg (by simp [h.ctx])]
+    refine ⟨h.stopped, h.stuck, h.cat, h.sil, h.nodisc, h.ctx, ?_, fun _ => Or.inl this, ?_, ?_, ?_⟩
     · intro h; exact absurd h (by simp)
     · intro k h; exact absurd h (by simp)
     · intro k h; exact absurd h (by simp)
     · simp
-  · exact h
 
 theorem run_of_up {w : World} {k : Nat} (h : Inv w) (hp : w.phase = .up k) : Run k w :=
   have u := h.up k hp
-  ⟨u.1, u.2.1, u.2.2.2.1, u.2.2.2.2.1, h.stuck, h.cat, h.sil, h.nodisc, h.stopped⟩
+  ⟨u.1, u.2.1, u.2.2.2.1, u.2.2.2.2.1, h.stuck, h.cat, h.sil, h.nodisc, h.stopped, h.ctx⟩
 
 theorem run_of_dead {w : World} {k : Nat} (h : Inv w) (hd : DeadOn w k) : Run k w :=
-  ⟨hd.1, hd.2.1, hd.2.2.2.1, hd.2.2.2.2, h.stuck, h.cat, h.sil, h.nodisc, h.stopped⟩
+  ⟨hd.1, hd.2.1, hd.2.2.2.1, hd.2.2.2.2, h.stuck, h.cat, h.sil, h.nodisc, h.stopped, h.ctx⟩
 
 /-- `Run` survives the changes an event makes before `progress` -/
 theorem Run.push {w : World} {k : Nat} (h : Run k w) (acc : List Req) (t : Task) (ht : t ≠ .disconnect) :
     Run k (pushTask { w with accepted := acc } t) := by
-  refine ⟨h.cli, h.lt, h.gor, h.ready, h.stuck, h.cat, h.sil, ?_, h.stopped⟩
+  refine ⟨h.cli, h.lt, h.gor, h.ready, h.stuck, h.cat, h.sil, ?_, h.stopped, h.ctx⟩
   simp only [pushTask, List.mem_append, List.mem_singleton]
   intro hd
   cases hd with
@@ -1463,16 +1501,21 @@ theorem inv_app (w : World) (r : Req) (h : Inv w) : Inv (step w (.app r)) := by
     rw [progress_blocked w0 (by rw [← hw0]; exact hb) (by rw [hph]; exact hn)]
     rw [← hw0]
     rw [← hw0] at nd0
-    exact ⟨h.stopped, h.stuck, h.cat, h.sil, nd0, h.idle, h.dial, h.gate, fun k hp => absurd hp (hn k), h.nex⟩
-  cases hp : w.phase with
-  | idle => exact blocked (Or.inl (h.idle hp).1) (by simp [hp])
-  | dialGate =>
+    exact ⟨h.stopped, h.stuck, h.cat, h.sil, nd0, h.ctx, h.idle, h.dial, h.gate,
+      fun k hp => absurd hp (hn k), h.nex⟩
+  -- the loop backs off or dials
+  have dialling : w.phase.dialling = true → Inv (progress w0) := by
+    intro hp
     cases h.dial hp with
-    | inl hg => exact blocked (Or.inl hg.1) (by simp [hp])
+    | inl hg => exact blocked (Or.inl hg.1) (fun k hk => by rw [hk] at hp; simp [Phase.dialling] at hp)
     | inr hd =>
       obtain ⟨k, hd⟩ := hd
       have hr : Run k w0 := hw0 ▸ (run_of_dead h hd).push _ _ (by simp)
-      exact (progress_dial k w0 hr (hph.trans hp) (by rw [← hw0]; exact hd.2.2.1)).1
+      exact (progress_dial k w0 hr (by rw [hph]; exact hp) (by rw [← hw0]; exact hd.2.2.1)).1
+  cases hp : w.phase with
+  | idle => exact blocked (Or.inl (h.idle hp).1) (by simp [hp])
+  | backoff => exact dialling (by rw [hp]; rfl)
+  | dialGate => exact dialling (by rw [hp]; rfl)
   | connackGate k =>
     have g := h.gate k hp
     exact blocked (Or.inr ⟨g.2.2.2.2.1, g.2.2.2.2.2⟩) (by simp [hp])
@@ -1495,16 +1538,16 @@ theorem inv_dialOk (w : World) (i : Nat) (h : Inv w) :
   · next hp => exact ⟨h, rfl, fun h => absurd h hp, fun _ => rfl⟩
   · next hp =>
     have hp : w.phase = .dialGate := by simpa using hp
-    refine ⟨⟨h.stopped, h.stuck, h.cat, h.sil, h.nodisc, ?_, ?_, ?_, ?_, ?_⟩, rfl,
+    refine ⟨⟨h.stopped, h.stuck, h.cat, h.sil, h.nodisc, h.ctx, ?_, ?_, ?_, ?_, ?_⟩, rfl,
       fun _ => ⟨_, rfl⟩, fun h => absurd hp h⟩
     · intro h; exact absurd h (by simp)
-    · intro h; exact absurd h (by simp)
+    · intro h; exact absurd h (by simp [Phase.dialling])
     · intro k hk
       have hk : w.conns.length = k := by simpa using hk
       subst hk
       refine ⟨rfl, by simp, ?_, rfl, ?_, rfl⟩
       · simp only [getConn]; rw [getD_append_self]
-      · cases h.dial hp with
+      · cases h.dial (by rw [hp]; rfl) with
         | inl hg => simp [hg.1, hg.2]
         | inr hd =>
           obtain ⟨k, hd⟩ := hd
@@ -1512,12 +1555,36 @@ theorem inv_dialOk (w : World) (i : Nat) (h : Inv w) :
     · intro k h; exact absurd h (by simp)
     · simp
 
+/-- a failed dial: the loop backs off -/
 theorem inv_dialFail (w : World) (h : Inv w) : Inv (step w .dialFail) := by
   simp only [step]
   split
   · exact h
-  · rw [if_neg (by simp [h.stopped])]
-    exact ⟨h.stopped, h.stuck, h.cat, h.sil, h.nodisc, h.idle, h.dial, h.gate, h.up, h.nex⟩
+  · next hp =>
+    have hp : w.phase = .dialGate := by simpa using hp
+    rw [if_neg (by simp [h.stopped])]
+    refine ⟨h.stopped, h.stuck, h.cat, h.sil, h.nodisc, h.ctx, ?_, fun _ => h.dial (by rw [hp]; rfl),
+      ?_, ?_, ?_⟩
+    · intro h; exact absurd h (by simp)
+    · intro k h; exact absurd h (by simp)
+    · intro k h; exact absurd h (by simp)
+    · simp
+
+/-- the back-off timer fires: the loop dials -/
+theorem inv_waitElapsed (w : World) (h : Inv w) :
+    Inv (step w .waitElapsed) ∧ (step w .waitElapsed).faults = w.faults ∧
+      (w.phase = .backoff → (step w .waitElapsed).phase = .dialGate) ∧
+      (w.phase ≠ .backoff → step w .waitElapsed = w) := by
+  simp only [step]
+  split
+  · next hp =>
+    refine ⟨⟨h.stopped, h.stuck, h.cat, h.sil, h.nodisc, h.ctx, ?_, fun _ => h.dial (by rw [hp]; rfl),
+      ?_, ?_, ?_⟩, rfl, fun _ => rfl, fun hn => absurd hp hn⟩
+    · intro h; exact absurd h (by simp)
+    · intro k h; exact absurd h (by simp)
+    · intro k h; exact absurd h (by simp)
+    · simp
+  · next hp => exact ⟨h, rfl, fun h => absurd h hp, fun _ => rfl⟩
 
 theorem inv_inbound (w : World) (m qos : Nat) (h : Inv w) : Inv (step w (.inbound m qos)) := by
   simp only [step]
@@ -1534,7 +1601,7 @@ theorem alive_setHandler (w : World) (k : Nat) (x : Option Nat) (j : Nat) :
 
 theorem quiet'_setHandler (w : World) (k : Nat) (x : Option Nat) :
     Quiet' w (setConn w k { getConn w k with handler := x }) := by
-  refine ⟨⟨⟨?_, ?_, ?_, ?_, ?_, ?_, ?_, ?_, ?_, ?_, ?_, ?_, ?alive, ?_⟩, ?_, ?_, ?_, ?_⟩, alive_setHandler w k x⟩
+  refine ⟨⟨⟨?_, ?_, ?_, ?_, ?_, ?_, ?_, ?_, ?_, ?_, ?_, ?_, ?_, ?alive, ?_⟩, ?_, ?_, ?_, ?_⟩, alive_setHandler w k x⟩
   case alive => intro j; rw [alive_setHandler]; exact id
   all_goals simp [setConn]
 
@@ -1552,7 +1619,7 @@ theorem inv_connackOk (w : World) (sp : Bool) (inb : List (Nat × Nat)) (h : Inv
     Inv (step w (.connackOk sp inb)) ∧
       (step w (.connackOk sp inb)).faults.length ≤ w.faults.length ∧
       ((∃ k, w.phase = .connackGate k) → settled (step w (.connackOk sp inb)) ∨
-        ((step w (.connackOk sp inb)).phase = .dialGate ∧
+        ((step w (.connackOk sp inb)).phase = .backoff ∧
           (step w (.connackOk sp inb)).faults.length < w.faults.length)) ∧
       ((∀ k, w.phase ≠ .connackGate k) → step w (.connackOk sp inb) = w) := by
   cases hp : w.phase with
@@ -1570,7 +1637,7 @@ theorem inv_connackOk (w : World) (sp : Bool) (inb : List (Nat × Nat)) (h : Inv
       refine ⟨e.cli.trans (m.cli.trans g.1), by rw [e.conns, m.len]; exact g.2.1,
         e.goroutine.trans (m.goroutine.trans g.2.2.2.1), e.connReady,
         e.stuck.trans (q.quiet.stuck.trans h.stuck), e.cat.trans (q.quiet.cat.trans h.cat), ?_, ?_,
-        e.stopped.trans (m.stopped.trans h.stopped)⟩
+        e.stopped.trans (m.stopped.trans h.stopped), e.ctx.trans (m.ctx.trans h.ctx)⟩
       · have := m.sil h.sil
         unfold Sil at *; rw [e.faults, e.cfg]; exact this
       · have nd : Task.disconnect ∉ mid.taskQ := by rw [m.taskQ]; exact h.nodisc
@@ -1587,6 +1654,7 @@ theorem inv_connackOk (w : World) (sp : Bool) (inb : List (Nat × Nat)) (h : Inv
     | inl s => exact Or.inl s
     | inr l => exact Or.inr ⟨l.1, Nat.lt_of_lt_of_le (l.2 al) fl⟩
   | idle => simp only [step, hp]; exact ⟨h, Nat.le_refl _, fun ⟨k, hk⟩ => absurd hk (by simp), by simp⟩
+  | backoff => simp only [step, hp]; exact ⟨h, Nat.le_refl _, fun ⟨k, hk⟩ => absurd hk (by simp), by simp⟩
   | dialGate => simp only [step, hp]; exact ⟨h, Nat.le_refl _, fun ⟨k, hk⟩ => absurd hk (by simp), by simp⟩
   | up k => simp only [step, hp]; exact ⟨h, Nat.le_refl _, fun ⟨k, hk⟩ => absurd hk (by simp), by simp⟩
   | exited => exact absurd hp h.nex
@@ -1596,13 +1664,11 @@ theorem inv_connectFailed (w : World) (k : Nat) (h : Inv w) (hp : w.phase = .con
   have g := h.gate k hp
   rw [connectFailed_live w k h.stopped]
   have hr : Run k { kill { w with connReady := true } k with
-      phase := .dialGate, waits := w.waits ++ [w.waitExp], waitExp := w.waitExp + 1,
-      dials := w.dials + 1 } := by
-    refine ⟨g.1, ?_, g.2.2.2.1, rfl, h.stuck, h.cat, h.sil, h.nodisc, h.stopped⟩
+      phase := .backoff, waits := w.waits ++ [w.waitExp], waitExp := w.waitExp + 1 } := by
+    refine ⟨g.1, ?_, g.2.2.2.1, rfl, h.stuck, h.cat, h.sil, h.nodisc, h.stopped, h.ctx⟩
     simp only [kill, setConn, List.length_set]; exact g.2.1
   have hd : (getConn { kill { w with connReady := true } k with
-      phase := .dialGate, waits := w.waits ++ [w.waitExp], waitExp := w.waitExp + 1,
-      dials := w.dials + 1 } k).alive = false := by
+      phase := .backoff, waits := w.waits ++ [w.waitExp], waitExp := w.waitExp + 1 } k).alive = false := by
     show (getConn (kill { w with connReady := true } k) k).alive = false
     rw [alive_kill]; rw [if_pos ⟨rfl, g.2.1⟩]
   exact (progress_dial k _ hr rfl hd).1
@@ -1628,7 +1694,7 @@ theorem inv_peerClose (w : World) (h : Inv w) : Inv (step w .peerClose) := by
   · next k hp =>
     have u := h.up k hp
     have hr : Run k (kill w k) := by
-      refine ⟨u.1, ?_, u.2.2.2.1, u.2.2.2.2.1, h.stuck, h.cat, h.sil, h.nodisc, h.stopped⟩
+      refine ⟨u.1, ?_, u.2.2.2.1, u.2.2.2.2.1, h.stuck, h.cat, h.sil, h.nodisc, h.stopped, h.ctx⟩
       simp only [kill, setConn, List.length_set]; exact u.2.1
     exact (progress_up k _ hr hp (Or.inl u.2.2.2.2.2.2)).1
   · exact h
@@ -1637,12 +1703,157 @@ def isDisconnect : Ev → Bool
   | .disconnect => true
   | _ => false
 
-theorem inv_step (w : World) (e : Ev) (h : Inv w) (he : isDisconnect e = false) : Inv (step w e) := by
+def isCancel : Ev → Bool
+  | .cancelCtx => true
+  | _ => false
+
+/-! #### the context given to Connect -/
+
+theorem ctx_runTasks (fuel : Nat) (w : World) : (runTasks fuel w).ctxCancelled = w.ctxCancelled := by
+  induction fuel generalizing w with
+  | zero => rfl
+  | succ fuel ih =>
+    rw [runTasks_succ]
+    split
+    · rfl
+    · split
+      · rfl
+      · split
+        · rfl
+        · rfl
+        · next t rest k _ _ =>
+          have m := runTask_mono (popTask w rest) k t
+          split
+          · exact m.ctx
+          · rw [ih]
+            have : (afterTask (runTask (popTask w rest) k t) k).ctxCancelled
+                = (runTask (popTask w rest) k t).ctxCancelled := by
+              unfold afterTask; split <;> rfl
+            exact this.trans m.ctx
+
+theorem ctx_loopReact (w : World) : (loopReact w).ctxCancelled = w.ctxCancelled := by
+  unfold loopReact
+  split
+  · split
+    · rfl
+    · split <;> rfl
+  · rfl
+
+theorem ctx_progress (w : World) : (progress w).ctxCancelled = w.ctxCancelled :=
+  (ctx_loopReact _).trans (ctx_runTasks _ w)
+
+theorem ctx_connectFailed (w : World) (k : Nat) : (connectFailed w k).ctxCancelled = w.ctxCancelled := by
+  unfold connectFailed
+  simp only
+  split <;> rfl
+
+/-- only `.cancelCtx` touches `ctxCancelled` -/
+theorem ctx_step (w : World) (e : Ev) (he : isCancel e = false) :
+    (step w e).ctxCancelled = w.ctxCancelled := by
+  cases e with
+  | start => simp only [step]; split <;> first | rfl | (split <;> rfl)
+  | app r => simp only [step]; split <;> first | rfl | exact ctx_progress _
+  | dialOk i => simp only [step]; split <;> rfl
+  | dialFail => simp only [step]; split <;> first | rfl | (split <;> rfl)
+  | waitElapsed => simp only [step]; split <;> rfl
+  | cancelCtx => exact absurd he (by decide)
+  | connackOk sp inb =>
+    cases hp : w.phase with
+    | connackGate k =>
+      rw [step_connackOk w k sp inb hp, ctx_progress]
+      exact (connackEnd_spec _ k sp).ctx.trans (quiet'_connackMid w k sp inb).quiet.mono.ctx
+    | idle => simp only [step, hp]
+    | backoff => simp only [step, hp]
+    | dialGate => simp only [step, hp]
+    | up k => simp only [step, hp]
+    | exited => simp only [step, hp]
+  | connackRefused =>
+    simp only [step]
+    split
+    · exact (ctx_progress _).trans (ctx_connectFailed ..)
+    · rfl
+  | connackNever =>
+    simp only [step]
+    split
+    · split
+      · exact (ctx_progress _).trans (ctx_connectFailed ..)
+      · rfl
+    · rfl
+  | peerClose =>
+    simp only [step]
+    split
+    · exact (ctx_progress _).trans (quiet_kill ..).mono.ctx
+    · rfl
+  | inbound m qos =>
+    simp only [step]
+    split
+    · exact (quiet'_deliverInbound ..).quiet.mono.ctx
+    · rfl
+  | handle x =>
+    simp only [step]
+    split <;> rfl
+  | disconnect =>
+    simp only [step]
+    split
+    · rfl
+    · have := ctx_progress { pushTask w .disconnect with stopped := true }
+      split <;> exact this
+
+/-- an effective cancellation (the context is done while Connect is still waiting) is recorded -/
+theorem ctx_cancel_effective (w : World) (h : w.connectReturned.isSome = false) :
+    (step w .cancelCtx).ctxCancelled = true := by
+  cases hc : w.ctxCancelled with
+  | true => simp only [step, hc]; simpa using hc
+  | false =>
+    simp only [step, hc, h]
+    simp only [Bool.false_eq_true, or_self, ↓reduceIte]
+    split <;> first | rfl | exact (ctx_progress _).trans rfl
+
+/-- a cancellation after Connect has returned has no effect (reconnclient.go:97-101) -/
+theorem cancel_ineffective (w : World) (h : w.connectReturned.isSome = true) : step w .cancelCtx = w := by
+  simp only [step, h, or_true, ↓reduceIte]
+
+/-- the cancellation of the context is never undone -/
+theorem ctx_step_mono (w : World) (e : Ev) (h : w.ctxCancelled = true) : (step w e).ctxCancelled = true := by
+  cases he : isCancel e with
+  | false => exact (ctx_step w e he).trans h
+  | true =>
+    cases e with
+    | cancelCtx => simp only [step, h, true_or, ↓reduceIte]
+    | _ => simp [isCancel] at he
+
+theorem ctx_foldl_mono (evs : List Ev) (w : World) (h : w.ctxCancelled = true) :
+    (evs.foldl step w).ctxCancelled = true := by
+  induction evs generalizing w with
+  | nil => exact h
+  | cons e rest ih => rw [List.foldl_cons]; exact ih _ (ctx_step_mono w e h)
+
+theorem ctx_foldl (evs : List Ev) (w : World) (h : ∀ e ∈ evs, isCancel e = false) :
+    (evs.foldl step w).ctxCancelled = w.ctxCancelled := by
+  induction evs generalizing w with
+  | nil => rfl
+  | cons e rest ih =>
+    rw [List.foldl_cons, ih _ (fun e' he' => h e' (List.mem_cons_of_mem _ he'))]
+    exact ctx_step w e (h e List.mem_cons_self)
+
+/-- a `.cancelCtx` that leaves `ctxCancelled = false` came after Connect had returned: it changes nothing -/
+theorem inv_cancelCtx (w : World) (h : Inv w) (hc : (step w .cancelCtx).ctxCancelled = false) :
+    Inv (step w .cancelCtx) := by
+  cases hr : w.connectReturned.isSome with
+  | true => rw [cancel_ineffective w hr]; exact h
+  | false => rw [ctx_cancel_effective w hr] at hc; exact absurd hc (by decide)
+
+/-- every event other than Disconnect and an effective cancellation of Connect's context preserves
+    the invariant -/
+theorem inv_step (w : World) (e : Ev) (h : Inv w) (he : isDisconnect e = false)
+    (hc : (step w e).ctxCancelled = false) : Inv (step w e) := by
   cases e with
   | start => exact inv_start w h
   | app r => exact inv_app w r h
   | dialOk i => exact (inv_dialOk w i h).1
   | dialFail => exact inv_dialFail w h
+  | waitElapsed => exact (inv_waitElapsed w h).1
+  | cancelCtx => exact inv_cancelCtx w h hc
   | connackOk sp inb => exact (inv_connackOk w sp inb h).1
   | connackRefused => exact inv_connackRefused w h
   | connackNever => exact inv_connackNever w h
@@ -1654,57 +1865,81 @@ theorem inv_step (w : World) (e : Ev) (h : Inv w) (he : isDisconnect e = false) 
 
 /-! ### liveness: friendly rounds -/
 
-/-- the friendly environment: dialling succeeds and the broker accepts, keeping the session -/
+/-- the friendly environment: the back-off timer fires, dialling succeeds and the broker accepts,
+    keeping the session. (In a state that is not backing off, `.waitElapsed` has no effect; in a state
+    that is not inside DialContext, `.dialOk` has none.) -/
 def friendly (n : Nat) (idStart : Nat) : List Ev :=
-  (List.replicate n [Ev.dialOk idStart, Ev.connackOk true []]).flatten
+  (List.replicate n [Ev.waitElapsed, Ev.dialOk idStart, Ev.connackOk true []]).flatten
 
 theorem friendly_succ (n i : Nat) :
-    friendly (n + 1) i = Ev.dialOk i :: Ev.connackOk true [] :: friendly n i := by
+    friendly (n + 1) i = Ev.waitElapsed :: Ev.dialOk i :: Ev.connackOk true [] :: friendly n i := by
   simp [friendly, List.replicate_succ]
 
 theorem settled_of_up {w : World} {k : Nat} (h : Inv w) (hp : w.phase = .up k) : settled w :=
   have u := h.up k hp
   ⟨u.2.2.2.2.2.1, u.2.2.2.2.2.2, h.stuck, k, hp, u.2.2.1⟩
 
+/-- the state after one friendly round -/
+def roundOf (w : World) (i : Nat) : World :=
+  step (step (step w .waitElapsed) (.dialOk i)) (.connackOk true [])
+
 /-- one friendly round from any started state -/
 theorem round (w : World) (i : Nat) (h : Inv w) (hp : w.phase ≠ .idle) :
-    Inv (step (step w (.dialOk i)) (.connackOk true [])) ∧
-      (settled (step (step w (.dialOk i)) (.connackOk true [])) ∨
-        ((step (step w (.dialOk i)) (.connackOk true [])).phase = .dialGate ∧
-          (step (step w (.dialOk i)) (.connackOk true [])).faults.length < w.faults.length)) ∧
-      (settled w → step (step w (.dialOk i)) (.connackOk true []) = w) := by
-  have ⟨d1, d2, d3, d4⟩ := inv_dialOk w i h
-  generalize step w (.dialOk i) = w1 at d1 d2 d3 d4
+    Inv (roundOf w i) ∧
+      (settled (roundOf w i) ∨
+        ((roundOf w i).phase = .backoff ∧ (roundOf w i).faults.length < w.faults.length)) ∧
+      (settled w → roundOf w i = w) := by
+  unfold roundOf
+  have ⟨b1, b2, b3, b4⟩ := inv_waitElapsed w h
+  generalize step w .waitElapsed = w0 at b1 b2 b3 b4
+  have ⟨d1, d2, d3, d4⟩ := inv_dialOk w0 i b1
+  generalize step w0 (.dialOk i) = w1 at d1 d2 d3 d4
   have ⟨c1, _, c3, c4⟩ := inv_connackOk w1 true [] d1
   generalize step w1 (.connackOk true []) = w2 at c1 c3 c4
   refine ⟨c1, ?_, ?_⟩
   · cases hph : w.phase with
     | idle => exact absurd hph hp
+    | backoff =>
+      have := c3 (d3 (b3 hph))
+      rw [d2, b2] at this; exact this
     | dialGate =>
+      have e : w0 = w := b4 (by simp [hph])
+      subst e
       have := c3 (d3 hph)
       rw [d2] at this; exact this
     | connackGate k =>
-      have e : w1 = w := d4 (by simp [hph])
+      have e : w0 = w := b4 (by simp [hph])
+      subst e
+      have e : w1 = w0 := d4 (by simp [hph])
       subst e
       exact c3 ⟨k, hph⟩
     | up k =>
-      have e : w1 = w := d4 (by simp [hph])
+      have e : w0 = w := b4 (by simp [hph])
+      subst e
+      have e : w1 = w0 := d4 (by simp [hph])
       subst e
       have e2 : w2 = w1 := c4 (by simp [hph])
       subst e2
       exact Or.inl (settled_of_up h hph)
     | exited => exact absurd hph h.nex
   · intro ⟨_, _, _, k, hk, _⟩
-    have e : w1 = w := d4 (by simp [hk])
+    have e : w0 = w := b4 (by simp [hk])
+    subst e
+    have e : w1 = w0 := d4 (by simp [hk])
     subst e
     exact c4 (by simp [hk])
+
+theorem foldl_friendly_succ (n i : Nat) (w : World) :
+    (friendly (n + 1) i).foldl step w = (friendly n i).foldl step (roundOf w i) := by
+  rw [friendly_succ, List.foldl_cons, List.foldl_cons, List.foldl_cons]
+  rfl
 
 theorem settled_rounds (n i : Nat) (w : World) (h : Inv w) (hs : settled w) :
     settled ((friendly n i).foldl step w) := by
   induction n with
   | zero => exact hs
   | succ n ih =>
-    rw [friendly_succ, List.foldl_cons, List.foldl_cons, (round w i h (fun e => by
+    rw [foldl_friendly_succ, (round w i h (fun e => by
       obtain ⟨_, _, _, k, hk, _⟩ := hs; rw [hk] at e; exact absurd e (by simp))).2.2 hs]
     exact ih
 
@@ -1714,27 +1949,35 @@ theorem rounds (n i : Nat) (w : World) (h : Inv w) (hp : w.phase ≠ .idle) (hn 
   induction n generalizing w with
   | zero => exact absurd hn (Nat.not_lt_zero _)
   | succ n ih =>
-    rw [friendly_succ, List.foldl_cons, List.foldl_cons]
+    rw [foldl_friendly_succ]
     have ⟨r1, r2, _⟩ := round w i h hp
-    generalize step (step w (.dialOk i)) (.connackOk true []) = w' at r1 r2
+    generalize roundOf w i = w' at r1 r2
     cases r2 with
     | inl s => exact settled_rounds n i w' r1 s
     | inr l => exact ih w' r1 (by rw [l.1]; simp) (by omega)
 
 theorem inv_init (s : Script) (hs : Fault.silent ∈ s.faults → s.cfg.respTimeout = true) : Inv (init s) := by
-  refine ⟨rfl, rfl, rfl, hs, by simp [init], fun _ => ⟨rfl, rfl⟩, ?_, ?_, ?_, ?_⟩
-  · intro h; exact absurd h (by simp [init])
+  refine ⟨rfl, rfl, rfl, hs, by simp [init], rfl, fun _ => ⟨rfl, rfl⟩, ?_, ?_, ?_, ?_⟩
+  · intro h; exact absurd h (by simp [init, Phase.dialling])
   · intro k h; exact absurd h (by simp [init])
   · intro k h; exact absurd h (by simp [init])
   · simp [init]
 
-theorem inv_foldl (evs : List Ev) (w : World) (h : Inv w) (nd : ∀ e ∈ evs, isDisconnect e = false) :
+/-- the invariant holds along every run without Disconnect in which the context given to Connect is
+    not cancelled while Connect is still waiting (`ctxCancelled` is still false at the end) -/
+theorem inv_foldl (evs : List Ev) (w : World) (h : Inv w) (nd : ∀ e ∈ evs, isDisconnect e = false)
+    (nc : (evs.foldl step w).ctxCancelled = false) :
     Inv (evs.foldl step w) := by
   induction evs generalizing w with
   | nil => exact h
   | cons e rest ih =>
-    rw [List.foldl_cons]
-    exact ih _ (inv_step w e h (nd e List.mem_cons_self)) (fun e' he' => nd e' (List.mem_cons_of_mem _ he'))
+    rw [List.foldl_cons] at nc ⊢
+    have hc : (step w e).ctxCancelled = false := by
+      cases hc : (step w e).ctxCancelled with
+      | false => rfl
+      | true => rw [ctx_foldl_mono rest _ hc] at nc; exact absurd nc (by decide)
+    exact ih _ (inv_step w e h (nd e List.mem_cons_self) hc)
+      (fun e' he' => nd e' (List.mem_cons_of_mem _ he')) nc
 
 theorem friendly_noDisconnect (n i : Nat) : ∀ e ∈ friendly n i, isDisconnect e = false := by
   induction n with
@@ -1743,7 +1986,21 @@ theorem friendly_noDisconnect (n i : Nat) : ∀ e ∈ friendly n i, isDisconnect
     rw [friendly_succ]
     intro e he
     simp only [List.mem_cons] at he
-    rcases he with rfl | rfl | he
+    rcases he with rfl | rfl | rfl | he
+    · rfl
+    · rfl
+    · rfl
+    · exact ih e he
+
+theorem friendly_noCancel (n i : Nat) : ∀ e ∈ friendly n i, isCancel e = false := by
+  induction n with
+  | zero => simp [friendly]
+  | succ n ih =>
+    rw [friendly_succ]
+    intro e he
+    simp only [List.mem_cons] at he
+    rcases he with rfl | rfl | rfl | he
+    · rfl
     · rfl
     · rfl
     · exact ih e he
@@ -1783,7 +2040,19 @@ theorem progress_connectFailed_sa (w : World) (k : Nat) (h : w.stuck = true) :
 theorem stuck_step (w : World) (e : Ev) (h : w.stuck = true) :
     (step w e).stuck = true ∧ (step w e).broker.acked = w.broker.acked := by
   cases e with
-  | start => simp only [step]; split <;> exact ⟨h, rfl⟩
+  | start => simp only [step]; split <;> first | exact ⟨h, rfl⟩ | (split <;> exact ⟨h, rfl⟩)
+  | waitElapsed => simp only [step]; split <;> exact ⟨h, rfl⟩
+  | cancelCtx =>
+    simp only [step]
+    split
+    · exact ⟨h, rfl⟩
+    · split
+      · exact ⟨h, rfl⟩
+      · exact ⟨h, rfl⟩
+      · exact ⟨h, rfl⟩
+      · exact progress_sa _ h
+      · exact ⟨h, rfl⟩
+      · exact ⟨h, rfl⟩
   | app r =>
     simp only [step]
     split
@@ -1804,6 +2073,7 @@ theorem stuck_step (w : World) (e : Ev) (h : w.stuck = true) :
       have := progress_sa (connackEnd (connackMid w k sp inb) k sp) (e.stuck.trans (q.stuck.trans h))
       exact ⟨this.1, this.2.trans ((congrArg Broker.acked e.broker).trans q.acked)⟩
     | idle => simp only [step, hp]; exact ⟨h, trivial⟩
+    | backoff => simp only [step, hp]; exact ⟨h, trivial⟩
     | dialGate => simp only [step, hp]; exact ⟨h, trivial⟩
     | up k => simp only [step, hp]; exact ⟨h, trivial⟩
     | exited => simp only [step, hp]; exact ⟨h, trivial⟩
